@@ -16,7 +16,9 @@ import (
 // conf is one configuration of the register machine: a parameter set and an evaluator mode.
 type conf struct {
 	bgvu.Conf
-	si bool // scale-invariant (BFV-style) evaluator
+	si    bool // scale-invariant (BFV-style) evaluator
+	base2 int  // > 0: relinearization key with a base-2^base2 decomposition
+	light bool // secondary configuration: short programs only (see scenarios)
 }
 
 func (cf conf) name() string {
@@ -29,6 +31,10 @@ func (cf conf) name() string {
 
 func tClass(cf bgvu.Conf) string {
 	switch {
+	case cf.T == 17 && cf.LogN == 5:
+		return "17-gap4"
+	case cf.T == 17 && cf.LogN == 6:
+		return "17-gap8"
 	case cf.T == 17:
 		return "17-gap2"
 	case cf.T == 97:
@@ -61,7 +67,32 @@ func configs(tier string) []conf {
 	}
 	var r []conf
 	for _, b := range base {
-		r = append(r, conf{b, false}, conf{b, true})
+		// quick: the two mid-size plaintext moduli with full plaintext ring share the work (65537 in BGV mode, the
+		// 30-bit one in BFV mode); thorough runs every parameter set in both modes
+		if tier != "thorough" && b.T == 65537 {
+			r = append(r, conf{Conf: b})
+			continue
+		}
+		if tier != "thorough" && b.T == t30 {
+			r = append(r, conf{Conf: b, si: true})
+			continue
+		}
+		r = append(r, conf{Conf: b}, conf{Conf: b, si: true})
+	}
+	// secondary ("light") configurations: plaintext rings smaller than the ciphertext ring by 4 and 8 (the encoder's
+	// gap embedding, the decoder's strided CRT), gap 2 on a larger ring, and a P-less chain with a base-2^16 key.
+	// Quick runs them on all one-instruction programs, mini x mini and the spine; thorough on core x wide as well.
+	light := []conf{
+		{Conf: bgvu.Conf{Name: "t17-logn5-gap4-q30x4-p30x1", LogN: 5, QBits: 30, NQ: 4, PBits: 30, NP: 1, T: 17}},
+		{Conf: bgvu.Conf{Name: "t17-logn5-gap4-q30x4-p30x1", LogN: 5, QBits: 30, NQ: 4, PBits: 30, NP: 1, T: 17}, si: true},
+		{Conf: bgvu.Conf{Name: "t17-logn6-gap8-q55x3-p55x2", LogN: 6, QBits: 55, NQ: 3, PBits: 55, NP: 2, T: 17}},
+		{Conf: bgvu.Conf{Name: "t17-logn6-gap8-q55x3-p55x2", LogN: 6, QBits: 55, NQ: 3, PBits: 55, NP: 2, T: 17}, si: true},
+		{Conf: bgvu.Conf{Name: "t97-logn5-gap2-q30x3-nop", LogN: 5, QBits: 30, NQ: 3, NP: 0, T: 97}, si: true},
+		{Conf: bgvu.Conf{Name: "t17-q30x4-nop-base2", LogN: 4, QBits: 30, NQ: 4, NP: 0, T: 17}, base2: 16},
+	}
+	for _, l := range light {
+		l.light = true
+		r = append(r, l)
 	}
 	return r
 }
@@ -89,7 +120,7 @@ func qmulConfigs() []conf {
 	add := func(logN int, t uint64, tag string, q []uint64) {
 		p := bgvu.PrimeBelow(logN, 61, 7, 10, 0) // 0.7 * 2^61: away from Q primes and from the QMul primes next to 2^61
 		name := fmt.Sprintf("qmul-logn%d-t%d-%s", logN, t, tag)
-		r = append(r, conf{bgvu.Conf{Name: name, LogN: logN, T: t, Q: q, P: []uint64{p}, NQ: len(q), NP: 1}, true})
+		r = append(r, conf{Conf: bgvu.Conf{Name: name, LogN: logN, T: t, Q: q, P: []uint64{p}, NQ: len(q), NP: 1}, si: true})
 	}
 	two := func(logN, total int) []uint64 {
 		b0 := (total + 1) / 2
@@ -180,12 +211,11 @@ func getWorld(c *engine.Chooser, cf conf, scen string) *world {
 	w.L = p.MaxLevel()
 	kgen := rlwe.NewKeyGenerator(p)
 	w.sk = kgen.GenSecretKeyNew()
-	// Without auxiliary primes P the relinearization key is generated with a base-2^16 decomposition (the
-	// usual way to keep key-switching noise small without P). The combination "no P, no base-2 decomposition"
-	// is exercised by one dedicated leaf of the fail scenario.
+	// Default relinearization key, except for the configurations that ask for a base-2^k decomposition (the usual
+	// way to keep key-switching noise small without auxiliary primes P).
 	var rlk *rlwe.RelinearizationKey
-	if cf.NP == 0 {
-		b2 := 16
+	if cf.base2 > 0 {
+		b2 := cf.base2
 		rlk = kgen.GenRelinearizationKeyNew(w.sk, rlwe.EvaluationKeyParameters{BaseTwoDecomposition: &b2})
 	} else {
 		rlk = kgen.GenRelinearizationKeyNew(w.sk)
